@@ -139,7 +139,8 @@ theorem inflight_completes (s0 : Sys) (hwf : s0.wf) (h0 : s0.exited = false) (es
 /-- the go-away broadcast reaches every existing connection exactly once per `Shutdown` that runs the callback -/
 theorem goaway_broadcast (s : Sys) (stage : Int) (hx : s.exited = false)
     (hcb : (lisShutdown s.lis stage).2.shutdownCb > 0) :
-    (step s (.signal stage)).conns = s.conns.map (fun c => { c with goAway := c.goAway + 1 })
+    (step s (.signal stage)).conns =
+      s.conns.map (fun c => { c with goAway := c.goAway + 1, notified := c.notified + (if s.notifies then 1 else 0) })
     ∧ (step s (.signal stage)).draining = true ∧ (step s (.signal stage)).waited = 0 := by
   simp [step, hx, hcb, onShutdownWaits, onShutdownBroadcasts]
 
@@ -147,15 +148,18 @@ theorem goaway_broadcast (s : Sys) (stage : Int) (hx : s.exited = false)
 finding): a request whose bytes have only partly arrived is not counted by the drain loop, so the exit label is enabled
 immediately — here with 15 s of drain time left — while that request is still incomplete. -/
 theorem incomplete_request_unprotected :
-    let s := run (sysInit drainDefaultMs) [.connect, .bytes 0, .signal GracefulStopping, .exit]
+    let s := run (sysInit drainDefaultMs false false) [.connect, .bytes 0, .signal GracefulStopping, .exit]
     s.exited = true ∧ phaseAt s.conns 0 = some .incomplete ∧ s.waited = 0 ∧ s.maxWait = 15000 := by decide
 
 -- non-vacuity of the hypotheses: a decoded request holds the exit back until it is answered or the time is up
-example : (run (sysInit 150) [.connect, .decoded 0, .signal GracefulStopping, .tick 10, .exit]).exited = false := by decide
-example : (run (sysInit 150) [.connect, .decoded 0, .signal GracefulStopping, .tick 10, .respDone 0, .exit]).exited = true := by decide
-example : (run (sysInit 150) [.connect, .decoded 0, .signal GracefulStopping, .tick 160, .exit]).exited = true := by decide
-example : (run (sysInit 150) [.connect, .signal Upgrading, .connect, .connect]).conns.length = 1 := by decide
-example : (sysInit 150).wf := by unfold Sys.wf; decide
+example : (run (sysInit 150 false false) [.connect, .decoded 0, .signal GracefulStopping, .tick 10, .exit]).exited = false := by decide
+example : (run (sysInit 150 false false) [.connect, .decoded 0, .signal GracefulStopping, .tick 10, .respDone 0, .exit]).exited = true := by decide
+example : (run (sysInit 150 false false) [.connect, .decoded 0, .signal GracefulStopping, .tick 160, .exit]).exited = true := by decide
+example : (run (sysInit 150 false false) [.connect, .signal Upgrading, .connect, .connect]).conns.length = 1 := by decide
+example : (sysInit 150 false false).wf := by unfold Sys.wf; decide
+-- HTTP/2 traits: a stream that exists at the signal completes, a stream begun after the GOAWAY is refused (retryable)
+example : ((run (sysInit 150 true true) [.connect, .decoded 0, .signal GracefulStopping, .respDone 0]).conns.map (·.served)) = [1] := by decide
+example : ((run (sysInit 150 true true) [.connect, .bytes 0, .signal GracefulStopping, .decoded 0]).conns.map (fun c => (c.refusedReq, c.notified))) = [(1, 1)] := by decide
 
 /-! ## stage manager -/
 
